@@ -111,6 +111,11 @@ def cases(tier, seed):
             for c in (1.0, 1e-6, 1e6):
                 for rhs in ("e0", "elast", "generic", "zero"):
                     out.append({"key": f"{st}/n={n}/c={c:g}/rhs={rhs}", "cls": st, "n": n, "scale": c, "rhs": rhs})
+    # near-invariant Krylov spaces: b = eigenvector of a small eigenvalue + perturbation just below a tolerance
+    for n in (2, 3, 4):
+        for di, delta in enumerate((5e-3, 5e-7, 5e-11)):
+            for kind in ("id", "hh"):
+                out.append({"key": f"neareig/n={n}/d={di}/{kind}", "cls": "neareig", "n": n, "scale": 1.0, "delta": delta, "kind": kind})
     return out
 
 
@@ -142,6 +147,12 @@ def build(case, seed):
             if (case["sub"] >> i) & 1:
                 b[i, 0] = [1.0, 0.5 * i, 0, -0.25]
         bs.append(("subset", b))
+    elif cls == "neareig":
+        lam = [0.01, 1.0, 2.0, -1.5][:n]
+        V = G.unitary(case["kind"], n, fill, variant=n)
+        A = O.qmatmul(O.qmatmul(V, G.diag_real(lam, n, n)), O.qH(V))
+        b = V[:, :1] + case["delta"] * V[:, 1:].sum(axis=1, keepdims=True)
+        bs.append(("near_eigenvector", b))
     else:
         c = case["scale"]
         if cls == "rank1":
